@@ -264,6 +264,9 @@ def _gen_ns(rng, tier):
         big = rng.choice([16383, 16384, 20000, 40000, 65536])
         frames[rng.randrange(len(frames))]['payload'] = (bytes(rng.randrange(256) for _ in range(64)) * (big // 64 + 1))[:big].hex()
         case_extra['big'] = True
+    if rng.random() < 0.2:
+        # the reader's own limit is small; every read_ns() call overrides it with the writer's limit
+        case_extra['reader_maxsize'] = rng.choice([1, 8, 9, 40, 99])
     return dict(case_extra, **{'mode': 'netstring', 'maxsize': maxsize, 'ns_timeout': rng.choice([None, 0.5, 1.0, 10]),
             'frames': frames, 'sndbuf': rng.choice([1, 3, 16, 1 << 30]),
             'drains': [[round(rng.choice([0, 0.01, 0.5, 0.9]), 6), rng.choice([1, 2, 5, 64, 5000])]
@@ -825,7 +828,8 @@ def _run_ns(case):
         _install_clock(clock2)
         rsock = SimSocket(clock2, log, stream=wire, inbound=deliveries, close_gap=0.0,
                           recv_split=case['recv_split'], call_cap=8 * len(wire) + 400)
-        r = su.NetstringSocket(rsock, timeout=case['ns_timeout'], maxsize=maxsize)
+        per_call = case.get('reader_maxsize') is not None
+        r = su.NetstringSocket(rsock, timeout=case['ns_timeout'], maxsize=case['reader_maxsize'] if per_call else maxsize)
         for j, (i, p) in enumerate(sent):
             attempts = 0
             while True:
@@ -835,7 +839,7 @@ def _run_ns(case):
                     out.fail('no-progress', i, 'read_ns did not complete', op='read_ns')
                     break
                 try:
-                    got = r.read_ns()
+                    got = r.read_ns(maxsize=maxsize) if per_call else r.read_ns()
                 except su.Timeout:
                     out.fault('timeout')
                     continue
